@@ -17,6 +17,14 @@ checks = {
    technique="exhaustive enumeration of 2-3 rule programs with shared/prefix/disjoint transformation lists x requests x map orders on the real engine; differential oracle against the same program with per-rule identity transformations (no cache sharing possible) replayed under the same map order",
    text="For every program of the family and every request, under every map order within the bound and on a recycled transaction object, the fired rules and transformed values must equal those of the reference program whose rules cannot share transformation-cache entries. No hand-written expectation is involved.",
    note="Trusted: distinct identity transformations registered through the plugin API give every rule a distinct transformation-chain id. Bounded: 6 transformation lists, 10 target kinds, 5 requests, deviation bound 1 (quick) / 2 (thorough)."),
+ "C08": dict(level="exploration", design="§3 C08", engine="flow model",
+   technique="exhaustive enumeration of rule programs (3-4 slots x phase x flow/disruptive action x chain, marker placement, engine mode) x all request bit vectors on the real engine, compared with a flow interpreter restating skip/skipAfter/allow/chain semantics",
+   text="Every program of the family is driven through all five phases for every subset of matching rules; the exact ordered list of fired rules and the interrupting rule must equal the documented flow semantics (skip counts same-phase rules only, nothing but allow's documented scope survives a phase end, logging phase always runs, allow not enforced in DetectionOnly, starter's disruptive/flow actions only on a completed chain).",
+   note="Trusted: the ~100-line flow interpreter in go/c08. Unspecified and not asserted: markers inside a skip window, allow:request in a response phase. Bounded: 3 slots (quick) / 4 slots (thorough), one chain of 2 links per program, one marker name."),
+ "C09": dict(level="exploration", design="§3 C09", engine="TX arithmetic model",
+   technique="exhaustive enumeration of 1-3 rule programs over an action alphabet (setvar +N/-N/assign/delete/flag/macro key/macro value, capture, msg, severity, chain link actions, multiMatch) x requests with 0..3 matching values, executed on the real engine and compared with an arithmetic reference model of the TX collection",
+   text="For every program and request the final TX contents, HIGHEST_SEVERITY, per-match messages, the fired rules and the threshold rule's interruption must equal the model in which each non-disruptive action runs exactly once per matched value, link actions per matched value of the link and the starter's disruptive action once per completed chain.",
+   note="Trusted: the reference model in go/c09 (≈150 lines). Evaluation order inside a collection is fixed to sorted-name order by the harness (C04 owns order independence). Not generated: arithmetic on unset / non-numeric operands, macros naming unset variables (documentation silent)."),
 }
 not_applicable = {}
 
